@@ -13,7 +13,7 @@ import (
 )
 
 func die(f string, a ...interface{}) { fmt.Fprintf(os.Stderr, "gotables: "+f+"\n", a...); os.Exit(2) }
-func cs(s string) string            { return `"` + strings.ReplaceAll(s, `"`, `""`) + `"` }
+func cs(s string) string             { return `"` + strings.ReplaceAll(s, `"`, `""`) + `"` }
 
 func parse(path string) *ast.File {
 	f, err := parser.ParseFile(token.NewFileSet(), path, nil, parser.ParseComments)
@@ -272,6 +272,44 @@ func main() {
 		})
 		for _, e := range cc.List {
 			lines = append(lines, fmt.Sprintf("  (%s, (%s, %v))", cs(exprText(e)), cs(fn), negated))
+		}
+	}
+	fmt.Println(strings.Join(lines, ";\n"))
+	fmt.Println("].")
+
+	// evaluate.go, filter.go, bexpr.go: every assignment (and ++/--) whose target is not a plain local identifier -
+	// a field, a dereference or an element.  The evaluation path must not write to shared structures (C12, C13).
+	fmt.Println("(* (file, function, assignment target) of every assignment to a field, dereference or element *)")
+	fmt.Println("Definition go_field_writes : list (string * string * string) := [")
+	lines = nil
+	for _, fn := range []string{"bexpr.go", "evaluate.go", "filter.go"} {
+		f := parse(filepath.Join(root, fn))
+		for _, d := range f.Decls {
+			fdecl, ok := d.(*ast.FuncDecl)
+			if !ok || fdecl.Body == nil {
+				continue
+			}
+			name := fdecl.Name.Name
+			record := func(e ast.Expr) {
+				switch e.(type) {
+				case *ast.Ident:
+					return
+				}
+				lines = append(lines, fmt.Sprintf("  (%s, %s, %s)", cs(fn), cs(name), cs(exprText(e))))
+			}
+			ast.Inspect(fdecl.Body, func(n ast.Node) bool {
+				switch x := n.(type) {
+				case *ast.AssignStmt:
+					if x.Tok != token.DEFINE {
+						for _, l := range x.Lhs {
+							record(l)
+						}
+					}
+				case *ast.IncDecStmt:
+					record(x.X)
+				}
+				return true
+			})
 		}
 	}
 	fmt.Println(strings.Join(lines, ";\n"))
